@@ -4,7 +4,7 @@
 From Coq Require Import ExtrOcamlBasic.
 From Fences Require Import Base Graph GraphCheck Format OpenApi.
 Extraction Language OCaml.
-Extraction "model.ml" build items generate_paths execute exec V_pinned V_fixed aempty
+Extraction "model.ml" build apply_op items generate_paths execute executev exec V_pinned V_fixed aempty
   wfb productiveb acyclicb
   format_parameter_value decode shape_of strs
   generate_all generate_one_valid step empty_cache.
